@@ -521,6 +521,31 @@ EXTRA_DECLS = [
 ]
 
 
+def _string_prefix_runs():
+    """Adjacent string literals where one encoding prefix occurs in some
+    positions and the others are narrow (C11 6.4.5p5: the whole run takes the
+    prefix): every arrangement of 2 and 3 pieces per prefix.  Observed through
+    the data gcc emits and through sizeof."""
+    import itertools
+
+    out = []
+    k = 0
+    for pre in ("L", "u", "U", "u8"):
+        for n in (2, 3):
+            for mask in itertools.product((False, True), repeat=n):
+                if not any(mask):
+                    continue
+                k += 1
+                run = " ".join((pre if m else "") + '"' + "abc"[i] + '"' for i, m in enumerate(mask))
+                tag = pre + ":" + "".join("P" if m else "n" for m in mask)
+                out.append((f"string-prefix-run:{tag}",
+                            f"const void *spr{k} = {run}; unsigned long spz{k} = sizeof({run});"))
+    return out
+
+
+EXTRA_DECLS += _string_prefix_runs()
+
+
 def flat_chains():
     """Unparenthesised chains a OP1 b OP2 c OP3 d over one operator per
     precedence level (all 1000 triples): the grouping is decided by precedence
